@@ -129,7 +129,7 @@ func checkC01(run *h.Run) {
 			name := fmt.Sprintf("%s/%s", router, sp.Name)
 			order = append(order, name)
 			st := runSweep(run, sp, func(w *worker, t rm.Table, p *rm.Parsed, st *sweepStats) {
-				b := rs.Build(t, rs.BuildOpt{Router: router, Filter: true})
+				b := rs.Build(t, rs.BuildOpt{Router: router, Filter: true, Longhand: true})
 				if b.Panic != "" {
 					atomic.AddInt64(&st.buildPanics, 1)
 					return // construction failures are C11's and C02's business
@@ -153,14 +153,14 @@ func checkC01(run *h.Run) {
 						}
 						nontriv++
 						if why := judgeC01(p, w.mreqs[qi], router, o, b.Log); why != "" {
-							rc := routingCase{Sweep: sp.Name, Router: router.String(), Table: t, Req: w.reqs[qi], Serve: serve, Filter: true, Observed: o, Tier: run.Tier, ReqIndex: qi}
+							rc := routingCase{Sweep: sp.Name, Router: router.String(), Table: t, Req: w.reqs[qi], Serve: serve, Filter: true, Longhand: true, Observed: o, Tier: run.Tier, ReqIndex: qi}
 							qi, serve := qi, serve
 							run.ViolateH("unsound-invocation/"+router.String(), "", fmt.Sprintf("[%s serve=%v] %v ; %v : %s", router, serve, t, w.reqs[qi], why), rc, func() bool {
-								b2 := rs.Build(t, rs.BuildOpt{Router: router, Filter: true})
+								b2 := rs.Build(t, rs.BuildOpt{Router: router, Filter: true, Longhand: true})
 								o2 := b2.Do(w.reqs[qi].HTTP(), h.NewRec(), serve)
 								return judgeC01(p, w.mreqs[qi], router, o2, b2.Log) != ""
 							}, func() bool {
-								b3 := rs.Build(t, rs.BuildOpt{Router: router, Filter: true})
+								b3 := rs.Build(t, rs.BuildOpt{Router: router, Filter: true, Longhand: true})
 								var o3 rs.Outcome
 								for k := 0; k <= qi; k++ {
 									o3 = b3.Do(w.reqs[k].HTTP(), h.NewRec(), serve)
@@ -248,6 +248,6 @@ func checkC01(run *h.Run) {
 	run.Cov["dispatches_in_which_a_route_function_ran"] = invoked
 	run.Cov["distinct_outcomes_sampled"] = outcomes.Len()
 	run.Cov["exhaustive"] = true
-	run.Cov["rule"] = "E1: same sweeps as C02 (P1, P2, H1, H2, X2; thorough adds P3 and larger alphabets), both routers, a logging container filter installed; P1 and H1 also through ServeHTTP; N2: 2-route tables where a route function dispatches a nested request on the same container and then re-reads its own selected route and parameters. Soundness oracle evaluated on every dispatch in which a route function ran (that is the non-trivial count): method, template admits path (reference model), Consumes admits Content-Type, Produces satisfies Accept, every condition evaluated and true, selected route seen by filter and handler is the route that ran."
+	run.Cov["rule"] = "E1 (routes declared with Method(m).Path(p); C02 declares the same tables with the per-method shortcuts): same sweeps as C02 (P1, P2, H1, H2, X2; thorough adds P3 and larger alphabets), both routers, a logging container filter installed; P1 and H1 also through ServeHTTP; N2: 2-route tables where a route function dispatches a nested request on the same container and then re-reads its own selected route and parameters. Soundness oracle evaluated on every dispatch in which a route function ran (that is the non-trivial count): method, template admits path (reference model), Consumes admits Content-Type, Produces satisfies Accept, every condition evaluated and true, selected route seen by filter and handler is the route that ran."
 	run.Assume = []string{"reference model of DESIGN.md §5", "alphabets bound the claim"}
 }
